@@ -114,6 +114,9 @@ def _work(item):
                     w = None
                 if w is not None and len(st["samples"]) < 4:
                     summ = getattr(c, "summary", None)
+                    if callable(summ):
+                        summ = summ()
+                    summ = symex.concretize_desc(summ)
                     st["samples"].append(dict(job_idx=job_idx, inputs=w, summary=summ))
         stack.extend(c.pending)
     return job_idx, job, stack, st
